@@ -394,7 +394,7 @@ class G:
                     c.append({"m": "on_conflict", "a": []})
                     r = self.rng.random()
                     if r < 0.5:
-                        c.append({"m": "do_update", "a": [self.ch(COLS), self.ch([1, "v", 0])]})
+                        c.append({"m": "do_update", "a": [self.ch(COLS), self.ch([1, "v", 0]) if self.p(0.8) else self.subq(cls)]})
                     elif r < 0.7:
                         # value-less form: col=<alias>.col, the alias of the inserted row given by as_()
                         c.append({"m": "do_update", "a": [self.ch(COLS)]})
@@ -406,7 +406,8 @@ class G:
                     # (program["tail"]) is routed to DO UPDATE ... WHERE whatever their relative order was
                     A.append({"group": "conflict_target", "calls": [{"m": "on_conflict", "a": [self.ch(COLS)]}
                                                                       for _ in range(self.rng.randint(1, 2))]})
-                    A.append({"group": "conflict_action", "calls": [{"m": "do_update", "a": [self.ch(COLS), self.ch([1, "v"])]}
+                    A.append({"group": "conflict_action", "calls": [{"m": "do_update", "a": [self.ch(COLS), self.ch([1, "v"]) if self.p(0.8)
+                                                                                            else self.subq(cls)]}
                                                                       for _ in range(self.rng.randint(1, 2))]})
                     if self.p(0.7):
                         self.tail = [{"m": "where", "a": [self.crit(TA)]}]
@@ -418,7 +419,7 @@ class G:
                         c.append({"m": "where", "a": [self.crit(TA)]})
                     if self.p(0.7):
                         c.append({"m": "do_update", "a": [self.ch(COLS) if self.p(0.7) else F(TA, self.ch(COLS))]
-                                  + ([self.ch([1, "v"])] if self.p(0.6) else [])})
+                                  + ([self.ch([1, "v"]) if self.p(0.8) else self.subq(cls)] if self.p(0.6) else [])})
                         if self.p(0.4):
                             c.append({"m": "do_update", "a": [self.ch(COLS), 2]})
                         if self.p(0.3):
@@ -1108,7 +1109,7 @@ def population_riders(L, o, kd):
         toks, cl = sqllex.top_clauses(sql, iq, bs, calls_are_terms=True)
     except sqllex.LexError as e:
         name = "balance"
-        if bs and "unterminated string" in str(e) and "\\'" in sql:
+        if bs and "\\'" in sql:
             # MySQL: a backslash directly before the closing quote of a literal (the generic value wrapper, chosen when
             # the value was wrapped, does not double backslashes)
             name = "balance[backslash-quote]"
@@ -1131,6 +1132,22 @@ def population_riders(L, o, kd):
                 bad.append((f"clause-order[{miss[1]}>{miss[0]}]".replace(" ", "_"),
                             f"{miss[0]} out of place or repeated after {miss[1]} in {' > '.join(names)}: {sql[:160]}"))
     return cls, sql, bad
+
+
+def _spec_classes(x, out=None):
+    """Names of the query classes mentioned anywhere in a spec."""
+    out = set() if out is None else out
+    if isinstance(x, dict):
+        if x.get("t") == "cls":
+            out.add(x["name"])
+        if x.get("t") == "table" and x.get("qc"):
+            out.add(x["qc"])
+        for v in x.values():
+            _spec_classes(v, out)
+    elif isinstance(x, list):
+        for v in x:
+            _spec_classes(v, out)
+    return out
 
 
 def _noparens(sql):
@@ -1195,7 +1212,8 @@ def population_program(rng):
             other = {"t": "meth", "x": {"t": "meth", "x": C, "m": "from_", "a": [TB]}, "m": "select",
                      "a": [F(TB, "x")] * max(1, len(lib.state(env.heap[i]).get("_selects") or [1]))}
             x = {"t": "meth", "x": {"t": "meth", "x": C, "m": "from_", "a": [TB]}, "m": "select",
-                 "a": [F(TB, "x"), {"t": "meth", "x": S, "m": rng.choice(["union", "union_all", "intersect"]), "a": [other]}]}
+                 "a": [F(TB, "x"), {"t": "meth", "x": {"t": "meth", "x": S, "m": "as_", "a": ["sj"]} if rng.random() < 0.5 else S,
+                                    "m": rng.choice(["union", "union_all", "intersect"]), "a": [other]}]}
         elif how == "ctas":
             x = {"t": "meth", "x": {"t": "meth", "x": C, "m": "create_table", "a": ["t_new"]}, "m": "as_select", "a": [S]}
         elif how == "insert_select":
@@ -1259,6 +1277,8 @@ def population_run(seed, run, rng):
             continue
         args = set(lang.spec_vars([op.get(k) for k in ("x", "a", "kw", "item") if k in op]))
         args.discard(op.get("r"))
+        if _spec_classes([op.get(k) for k in ("x", "a", "kw", "item") if k in op]) - {type(P).QUERY_CLS.__name__}:
+            continue  # an inline statement of another dialect may sit between P and its argument and adjust the context
         for i in sorted(args):
             S = env.heap[i]
             if not engine.is_object_slot(S) or obs.kind_of(L, S) != "qb" or population_kind(S) != "select" \
@@ -1297,6 +1317,21 @@ def population_run(seed, run, rng):
                             "program": p2, "victim": mp[j], "sub": mp[i], "share_tables": knobs["share_tables"],
                             "rider": "sqlite-parse-nested", "detail": f"{err}: {outer[:300]}"}})
             if inner_n not in outer_n:
+                # the bracketed text that begins like S may be ANOTHER statement of the heap that P really embeds (an
+                # ancestor or sibling of S, with the same first clauses) while S itself was dropped: not S's business
+                rival = False
+                for i2, T in enumerate(env.heap):
+                    if i2 == i or not engine.is_object_slot(T) or obs.kind_of(L, T) != "qb" or type(T) is not type(S):
+                        continue
+                    try:
+                        t_n = _noparens(T.get_sql(L.CTX[cls].copy(with_alias=False, subquery=False)))
+                    except Exception:  # noqa: BLE001
+                        continue
+                    if t_n and t_n[:24] == inner_n[:24] and t_n in outer_n:
+                        rival = True
+                        break
+                if rival:
+                    continue
                 sig = f"{PROP}:rider:subquery-context:population"
                 if any(x["signature"] == sig for x in res["violations"]):
                     continue
